@@ -275,9 +275,9 @@ func c02Jobs(thorough bool) []c02Job {
 	m5 := c02Scn{"M5-int-3recorders", "int", [][]string{{A, B}, {A, A}, {B}}, [][]string{{"D", "D"}, {"C"}}, false}
 	p3 := c02Scn{"P3-periodic-float", "float", [][]string{{A, A}, {B}}, [][]string{{"F", "F"}}, true}
 	if !thorough {
-		return []c02Job{{m1, 2, 0}, {m2, 2, 0}, {m3, 2, 0}, {m4, 2, 0}, {p1, 1, 1}, {p2, 1, 1}}
+		return []c02Job{{m1, 3, 0}, {m2, 3, 0}, {m3, 3, 0}, {m4, 3, 0}, {p1, 1, 1}, {p2, 1, 0}, {p2, 0, 1}}
 	}
-	return []c02Job{{m1, 3, 0}, {m2, 3, 0}, {m3, 3, 0}, {m4, 3, 0}, {m5, 2, 0}, {p1, 2, 2}, {p2, 2, 1}, {p3, 2, 1}}
+	return []c02Job{{m1, 4, 0}, {m2, 4, 0}, {m3, 4, 0}, {m4, 4, 0}, {m5, 2, 0}, {m5, 3, 0}, {p1, 2, 2}, {p2, 1, 1}, {p2, 2, 0}, {p3, 1, 1}, {p3, 2, 0}}
 }
 
 func TestVerifC02(t *testing.T) {
